@@ -144,6 +144,15 @@ def gen_program(ctx, ncases, nstmts, maxdepth, per_tu):
         calc = c01cls.ClassCalc(json.load(open(tj)))
     g = c01gen.Gen(r, ctx, maxdepth=maxdepth, calc=calc)
     cases, k = [], 0
+    # corpus first (minimised past failures, hand-written edge cases)
+    cg = c01gen.CorpusGen(calc)
+    for fn, lines in load_corpus():
+        try:
+            case, k = cg.load(lines, k)
+            cases.append(case)
+            ctx.count("corpus_cases")
+        except Exception as ex:
+            ctx.broken("corpus", fn, f"corpus case cannot be rendered: {ex}")
     for _ in range(ncases):
         init = g.new_case()
         stmts = []
@@ -253,7 +262,7 @@ def run(ctx):
         exe = compile_program(ctx, f"c01-{cname}", tus, flags)
         if not exe or isinstance(exe, list):
             continue
-        core.correspond(ctx, f"K-C01[{cname}]", cases, [exe], [drv], classify, keep_prefix=sum(1 for o in cases[0] if not o.startswith(("stmt", "red"))))
+        core.correspond(ctx, f"K-C01[{cname}]", cases, [exe], [drv], classify, keep_prefix=sum(1 for o in cases[-1] if not o.startswith(("stmt", "red"))))
 
 
 def replay(ctx, rep):
